@@ -2,7 +2,7 @@
    Specification: decode (Arrow/Arr.v: the logical content by the rules of the format, compositional
    on whole arrays) and present (De/Present.v: what a self-describing read shows for a logical value
    of a field).  Implementation model: read (De/Reader.v: index arithmetic per accessor). *)
-From Verif Require Import Reader Reader_proofs Decode_proofs.
+From Verif Require Import Reader Reader_proofs Decode_proofs SerializerTables SerTablesSpec.
 
 (* Full-strength statement (kept visible): evaluated on every case of the check as the
    specification oracle RunC02.oracle (all data types); proved below (C02_full_proved) for every
@@ -48,6 +48,12 @@ Theorem C02_union_step : forall types offs fields ufs nm nl,
   Forall2 UR ufs fields -> consecutive 0 fields = true ->
   reads_ok (mkField nm (DUnion ufs) nl) (AUnion types offs fields).
 Proof. exact read_decode_union. Qed.
+
+(* tie to the source by translation (regenerated from /repo on every run): every kind of view is
+   routed to the reader type the model assumes - 33 kinds and the 16 dictionary key / value
+   combinations (8 integer key types x Utf8 / LargeUtf8), which is exactly what `construct` accepts *)
+Theorem C02_reader_dispatch_table : reader_dispatch_ok = true.
+Proof. vm_compute. reflexivity. Qed.
 
 (* nulls exactly where the validity bitmap says so, whatever the bit offset and whatever is stored
    below a null slot *)
